@@ -159,7 +159,7 @@ def chain_cases(ctx, quick, rng, rcases, rmetas):
         v = calc.vacancy(name, chem, shell, nth, rng)
         v.chem = chem
         sizes = chain_sizes(v)
-        for rep in range(2 if quick else 4):
+        for rep in range(2 if quick else 3):
             d = calc.vacancy_data(v, rng, 0, 2)
             if rep % 2 == 1:
                 # stronger, symmetry-distinct exchange and association/dissociation rates
